@@ -4,7 +4,7 @@ import pipeline as P
 from peg import dump_groups
 
 DEFAULT_OPT = dict(memo=False, debug=False, stats=True, maxexpr=0, allowinv=False, recover=True, fname="f",
-                   errblks=[], panicblk=0, entry="", entryrule=1)
+                   errblks=[], panicblk=0, entry="", entryrule=1, initx=-1, initg=0, via="")
 
 
 def opt(**kw):
@@ -68,7 +68,7 @@ class Run:
         self.kf = list(fids)
 
     def execute(self, groups, inputs, options, plan_for, flagsets, cmp=None, pack_size=300, gen_flags_for=None,
-                timeout_ms=5000, shards=12, classify=None, lower=None, uclass=None):
+                timeout_ms=5000, shards=12, classify=None, lower=None, uclass=None, noentry_oi=None):
         """plan_for(g) -> list of (input index, option index).  Returns (divergences, totals, variants)."""
         pigeon = P.build_pigeon()
         wit = getattr(self, "wit", {})
@@ -105,7 +105,12 @@ class Run:
                 for (ii, oi) in plan_for(g):
                     if v.optimized and (options[oi]["memo"] or options[oi]["debug"]):
                         continue
+                    if not v.state_on and options[oi].get("initx", -1) >= 0:
+                        continue          # InitState does not exist in a parser without the state store
                     plan.append([gx, ii, oi])
+                if gx == 0 and noentry_oi is not None and not g.maydiverge and g.gi not in wit:
+                    # the first rule of the generated file is this group's entry: parse WITHOUT the Entrypoint option
+                    plan += [[0, ii, noentry_oi] for ii in sorted({p_[0] for p_ in plan_for(g)})]
             self.plans[v.vi] = plan
             dbg = os.path.join(v.dir, "debug.txt") if any(options[p_[2]]["debug"] for p_ in plan) and getattr(self, "keep_debug", False) else None
             return v.run(inputs, options, plan, timeout_ms=timeout_ms, debug_out=dbg)
@@ -173,8 +178,9 @@ class Run:
         ev = dict(property_id=self.pid, tier=self.tier, seed=self.seed, level=level, coverage=coverage,
                   assumptions=list(assumptions), wall_s=round(time.time() - self.t0, 1), violations=len(self.violations),
                   notes=self.notes, known_findings=self.known)
-        os.makedirs(os.path.join(P.VERIF, "evidence"), exist_ok=True)
-        with open(os.path.join(P.VERIF, "evidence", self.pid + ".json"), "w") as f:
+        evdir = os.environ.get("VERIF_EVIDENCE_DIR") or os.path.join(P.VERIF, "evidence")
+        os.makedirs(evdir, exist_ok=True)
+        with open(os.path.join(evdir, self.pid + ".json"), "w") as f:
             json.dump(ev, f, indent=1)
         for k in self.known:
             print("KNOWN-FINDING: property=%s %s" % (self.pid, k))
